@@ -113,7 +113,8 @@ def job_version(job):
             for m in tries:
                 mism, req = confirm_native(native, v, stream, level, m)
                 reqs.append(req)
-                mine = [d for k, d in mism if PROP_OF_KIND.get(k, pid) == pid or k == 'panic' or (pid == 'C02' and k == 'data')]
+                mine = [d for k, d in mism if PROP_OF_KIND.get(k, pid) == pid or k == 'panic' or (pid == 'C02' and k == 'data')
+                        or (pid == 'C08' and k in ('function', 'format', 'version', 'data'))]
                 if mine:
                     confirmed = True
                     what = '%s [V%02d level %s forced mask %s, stream %s...]' % (mine[0], v + 1, iso.LEVELS[level], m, bytes(stream[:12]).hex())
